@@ -1,6 +1,6 @@
 /-
   Fit.lean — spline/detail/fit_impl.hpp: `fit_spline_1d` (constraint rows, KKT assembly; the sparse
-  linear solve is a PARAMETER), `fit_spline` (differences, per-coordinate fit, cumulative
+  linear solves are PARAMETERS), `fit_spline` (differences, per-coordinate fit, cumulative
   coefficients, middle-coefficient re-solve, `concat_global` chain) and `fit_bspline` sizes.
 
   Tables.  `B_s` (Bernstein → monomial coefficient matrix), `U0_s = monomial_derivatives(0.)`,
@@ -185,7 +185,8 @@ def costFac (s : Spec) (dt : α) : α := nat 1 / ipow dt (2 * s.D - 1)
 /-- the regularisation added on the diagonal of every cost block -/
 def regEps : α := nat 1 / nat 1000000
 
-/-- `H.insert(r, c) = v` calls: cost blocks, then the pruned `A` below them (lower triangle only) -/
+/-- `H.insert(r, c) = v` calls: cost blocks, then every entry of the pruned `A` below them AND
+    mirrored above them (the full symmetric matrix `[Q Aᵀ; A 0]`) -/
 def kktEntries (s : Spec) (O : Nat) (τ : α) (dt dx lv rv : List α) : List (Nat × Nat × α) :=
   let N := nSeg dt dx
   let nC := s.nCoef N
@@ -196,19 +197,20 @@ def kktEntries (s : Spec) (O : Nat) (τ : α) (dt dx lv rv : List α) : List (Na
       (p.1 * (s.K + 1) + ki.val, p.1 * (s.K + 1) + kj.val,
         (if ki = kj then regEps else nat 0) + fac * P ki kj))))
   let A := ((List.range (s.nEq N)).zip ((rows s dt dx lv rv).map (pruneRow τ))).flatMap (fun p =>
-    p.2.ent.map (fun e => (nC + p.1, e.1, e.2)))
+    p.2.ent.flatMap (fun e => [(nC + p.1, e.1, e.2), (e.1, nC + p.1, e.2)]))
   Q ++ A
 
 /-- `rhs = [0; b]` -/
 def kktRhs (s : Spec) (dt dx lv rv : List α) : List α :=
   List.replicate (s.nCoef (nSeg dt dx)) (nat 0) ++ (rows s dt dx lv rv).map (·.rhs)
 
-/-- `fit_spline_1d`.  `solveLU n A b` stands for `SparseLU(A).solve(b)` on the square system,
-    `solveLDLT n Hlower rhs` for `SimplicialLDLT<Lower>(H).solve(rhs)`; both are parameters with
-    the contract "returns the solution of the linear system" (audited, not proved). -/
+/-- `fit_spline_1d`.  `solveLU n A b` stands for `SparseLU(A).solve(b)` on the square constraint
+    system, `solveKKT n H rhs` for `SparseLU(H).solve(rhs)` on the full symmetric KKT matrix; both
+    are parameters with the contract "returns the solution of the linear system" (audited, not
+    proved). -/
 def fit1d (s : Spec) (τ : α) (dt dx lv rv : List α)
     (solveLU : Nat → List (Row α) → (Nat → α))
-    (solveLDLT : Nat → List (Nat × Nat × α) → List α → (Nat → α)) : List α :=
+    (solveKKT : Nat → List (Nat × Nat × α) → List α → (Nat → α)) : List α :=
   let N := nSeg dt dx
   let nC := s.nCoef N
   match s.optDeg with
@@ -216,7 +218,7 @@ def fit1d (s : Spec) (τ : α) (dt dx lv rv : List α)
     let x := solveLU nC ((rows s dt dx lv rv).map (pruneRow τ))
     (List.range nC).map x
   | some O =>
-    let z := solveLDLT (nC + s.nEq N) (kktEntries s O τ dt dx lv rv) (kktRhs s dt dx lv rv)
+    let z := solveKKT (nC + s.nEq N) (kktEntries s O τ dt dx lv rv) (kktRhs s dt dx lv rv)
     (List.range nC).map z
 
 -- ---------------------------------------------------------------- fit_spline
@@ -281,8 +283,10 @@ end Glue
 
 -- ---------------------------------------------------------------- fit_bspline sizes
 
-/-- `NumPts = K + static_cast<Index>((t1 − t0 + dt)/dt)`; `trunc` is the float→integer conversion -/
-def bsplineNumPts (trunc : α → Nat) (K : Nat) (t0 t1 dt : α) : Nat := K + trunc ((t1 - t0 + dt) / dt)
+/-- `NumPts = K + 1 + static_cast<Index>((t1 − t0)/dt)`: the window of the last data point starts
+    at `istar = trunc((t1 − t0)/dt)` — the very expression the objective and `BSpline::operator()`
+    evaluate — and needs `K + 1` control points; `trunc` is the float→integer conversion -/
+def bsplineNumPts (trunc : α → Nat) (K : Nat) (t0 t1 dt : α) : Nat := K + 1 + trunc ((t1 - t0) / dt)
 
 /-- `BSpline::t_max = t0 + (ctrl_pts.size() − K)·dt` -/
 def bsplineTmax (trunc : α → Nat) (K : Nat) (t0 t1 dt : α) : α :=
